@@ -127,3 +127,16 @@ pub fn split_clear() {
     MAP.write().clear();
     ORDER.lock().clear();
 }
+
+// ---- C*-D1: an update of the cache written inside debug_assert! (compiled out in release builds) ----
+pub fn debug_only_effect(k: &str) {
+    let mut o = ORDER.lock();
+    debug_assert!(o.pop_front().is_some(), "queue was empty for {}", k);
+}
+
+// negative twin: the update is made unconditionally, only its result is asserted
+pub fn effect_then_debug_assert(k: &str) {
+    let mut o = ORDER.lock();
+    let popped = o.pop_front();
+    debug_assert!(popped.is_some(), "queue was empty for {}", k);
+}
